@@ -202,6 +202,9 @@ class SdoClient(SdoBase):
             A file like object.
         """
         buffer_size = buffering if buffering > 1 else io.DEFAULT_BUFFER_SIZE
+        if "w" in mode and size is not None and 0 < size <= 4:
+            # An expedited download takes all its data in one piece
+            buffer_size = max(buffer_size, size)
         if "r" in mode:
             if block_transfer:
                 raw_stream = BlockUploadStream(self, index, subindex, request_crc_support=request_crc_support)
